@@ -272,7 +272,7 @@ int main(void)
     } else if (!strncmp(line, "put ", 4) || !strncmp(line, "symlink ", 8)) {
       /* put <relpath> <hexbytes|->  /  symlink <relpath> <target>: (re)place a file in the snapshot, undone by unhide */
       int islink = line[0] == 's';
-      char *rel = line + (islink ? 8 : 4), *arg = strchr(rel, ' '), full[PATH_MAX]; int ok = 0;
+      char *rel = line + (islink ? 8 : 4), *arg = strrchr(rel, ' '), full[PATH_MAX]; int ok = 0;   /* the last blank: paths may hold blanks, hex contents and link targets do not */
       if (arg) {
         *arg++ = 0;
         snprintf(full, sizeof(full), "%s/%s", rootdir, rel);
